@@ -138,6 +138,7 @@ def handle (op : String) (j : Json) : Option (Except String Json) :=
   | "c14.ffft" => some (ffft j)
   | "c14.ffftexp" => some (ffftExp j)
   | "c14.ffftsim" => some (ffftSimH j)
+  | "c14.ffftsimcyc" => some (do .ok (J.ofList (J.ofList J.ofIntList) (ffftSimCyc (← J.nat (← J.field j "n")))))
   | "c14.slaterschedule" => some (slaterSchedule j)
   | _ => none
 
